@@ -449,12 +449,13 @@ theorem rpcForm2_accept_safe {rh expUH h : Nat} {fc : Rev} {st : Settings} {rec 
     fc.wStart < rh ∧ (∀ cl ∈ contractClauses fc h st 0 rec.locked, cl.2 = true) ∧ formRecorded fc st = some rec := by
   unfold rpcForm2 at hh
   res_ok' at hh
-  obtain ⟨hrh, c, hc, rfl⟩ := hh
+  obtain ⟨_, hrh, c, hc, rfl⟩ := hh
   have := formation_accept_safe hc
   exact ⟨hrh, this.1, this.2.1⟩
 
 theorem rpcForm2_no_panic (rh expUH h : Nat) (fc : Rev) (st : Settings) : NoPanic (rpcForm2 rh fc expUH h st) := by
   unfold rpcForm2
+  refine NoPanic.bind (check_noPanic _ _) fun _ _ => ?_
   refine NoPanic.bind (check_noPanic _ _) fun _ _ => ?_
   refine NoPanic.bind (formation_no_panic _ _ _ _) fun _ _ => ?_
   exact NoPanic.pure _
@@ -471,7 +472,7 @@ theorem rpcRenew2_accept_safe {fx : Bool} {rh expUH h : Nat} {e r : Rev} {fv : L
     r.filesize = e.filesize ∧ r.root = e.root ∧ e.wEnd ≤ r.wEnd := by
   unfold rpcRenew2 at hh
   res_ok' at hh
-  obtain ⟨hrh, clearing, hclr, evr, _, fp, hfp, ⟨b1, b2⟩, hbase, ⟨a, b, c⟩, hval, storage, ⟨hsub, rfl⟩, tot, _, rfl⟩ := hh
+  obtain ⟨_, _, hrh, clearing, hclr, evr, _, fp, hfp, ⟨b1, b2⟩, hbase, ⟨a, b, c⟩, hval, storage, ⟨hsub, rfl⟩, tot, _, rfl⟩ := hh
   obtain ⟨rfl, rfl⟩ := renewBase_ok hbase
   obtain ⟨vh, mh, void, sf, hle, hburn, hvoid, hb, hmc, rfl, rfl, rfl⟩ := validateRenewal2_ok hval
   obtain ⟨x, y, r1, r2, hv, hm⟩ := sf.shape
@@ -501,7 +502,7 @@ theorem rpcRenew2_window_partial {fx : Bool} {rh expUH h : Nat} {e r : Rev} {fv 
     h + st.windowSize ≤ r.wStart ∧ r.wStart ≤ h + st.maxDuration ∧ r.wStart + st.windowSize ≤ r.wEnd := by
   unfold rpcRenew2 at hh
   res_ok' at hh
-  obtain ⟨hrh, clearing, hclr, evr, _, fp, hfp, ⟨b1, b2⟩, hbase, ⟨a, b, c⟩, hval, _⟩ := hh
+  obtain ⟨_, _, hrh, clearing, hclr, evr, _, fp, hfp, ⟨b1, b2⟩, hbase, ⟨a, b, c⟩, hval, _⟩ := hh
   exact renewal2_window_partial hval hn
 
 /-- **C12 (handleRPCRenew).** the same for RHP3: base revenue `RenewContractCost + WriteStoreCost·filesize·extension`
@@ -560,6 +561,8 @@ theorem rpcRenew2_noPanic {fx : Bool} {rh expUH h : Nat} {e r : Rev} {fv : List 
       st.contractPrice + baseCost st.storagePrice e r + baseCost st.collateral e r < C128)) :
     NoPanic (rpcRenew2 fx rh e r fv expUH h st) := by
   unfold rpcRenew2
+  refine NoPanic.bind (check_noPanic _ _) fun _ _ => ?_
+  refine NoPanic.bind (check_noPanic _ _) fun _ _ => ?_
   refine NoPanic.bind (check_noPanic _ _) fun _ _ => ?_
   refine NoPanic.bind (clearingRevision_no_panic _ _) fun _ _ => ?_
   refine NoPanic.bind (out0_noPanic he) fun _ _ => ?_
@@ -638,6 +641,14 @@ theorem rpcRenew3_panics_base_overflow :
 /-- after the repair both are plain rejections -/
 example : rpcRenew2 true U64 exExisting { exRenewal with filesize := U64 - 1, wEnd := U64 - 1 } [4999, 701] 10 1000 exSettings
     = .reject .costOverflow := by decide +kernel
+
+example : BaseSafe 200 3 2 exExisting exRenewal := by intro _; decide +kernel
+example : 2 ≤ exExisting.valid.length ∧ total exExisting.valid + exSettings.contractPrice < C128 := by decide +kernel
+example : rpcForm2 U64 exForm 10 1000 exSettings
+    = .ok { locked := 500, rpcRevenue := 200, storageRevenue := 0, risked := 0, clearingRPC := 0 } := by decide +kernel
+example : rpcRenew3 false U64 exExisting exClearing exRenewal 10 1000 { exSettings with maxCollateral := 5000000 }
+    = .ok { locked := 1001521, rpcRevenue := 200, storageRevenue := 2998279, risked := 0, clearingRPC := 0 } := by
+  decide +kernel
 
 /-- an accepted RHP2 renewal and what is recorded for it -/
 example : rpcRenew2 false U64 exExisting exRenewal [4999, 701] 10 1000 { exSettings with maxCollateral := 2000000 }
